@@ -171,6 +171,10 @@ class Route:
                 cls._nested = False
             if r.random() < 0.4:
                 c["lds"] = None
+        elif not getattr(cls, "_nested", False) and named and r.random() < 0.2:
+            # the named route tables were there (and used) earlier and have been withdrawn since
+            c["prev_named"] = named
+            c["named"] = []
         return c
 
     @classmethod
@@ -180,7 +184,7 @@ class Route:
 
     @staticmethod
     def to_harness(c):
-        return {"lds": c["lds"], "named": c["named"], "calls": c["calls"], "repeat": c.get("repeat", 1), "prev_lds": c.get("prev_lds")}
+        return {"lds": c["lds"], "named": c["named"], "calls": c["calls"], "repeat": c.get("repeat", 1), "prev_lds": c.get("prev_lds"), "prev_named": c.get("prev_named") or []}
 
     @staticmethod
     def gcall(k):
